@@ -153,7 +153,7 @@ INITIAL = {"log": (("TXT", '"0"'),), "base": (("A", "10.0.0.0"),)}
 class Exec:
     """One execution of a configuration under one schedule."""
 
-    def __init__(self, threads, chooser, line=False, release_points=True):
+    def __init__(self, threads, chooser, line=False, release_points=False):
         self.threads = threads
         self.labels = _labels(threads)
         self.order = [l for _, l, _ in self.labels]
@@ -186,6 +186,9 @@ class Exec:
         if t.state == "in_writer" and not t.arrived:
             t.arrived = True
             self.arrivals.append(t.user)
+        elif t.state == "in_reader" and not t.arrived:
+            t.arrived = True
+            self.log.append(("r_lock", t.user))
 
     def _on_decision(self, s):
         # readers never wait for a write transaction: a reader is runnable, or is
@@ -302,6 +305,8 @@ class Exec:
 
     def _reader_body(self, ridx):
         def body(t):
+            t.user = ("reader", ridx)
+            t.arrived = False
             t.state = "in_reader"
             self.log.append(("r_call", ridx))
             if self.busy:
@@ -413,15 +418,15 @@ class Exec:
                 started.add(ev[1])
             elif ev[0] == "end_ret":
                 ended.add(ev[1])
-            elif ev[0] == "r_call":
-                # commits certainly visible: longest admitted prefix all ended
+            elif ev[0] == "r_lock":
+                # commits certainly visible (they had returned when the reader got the lock): longest admitted prefix all ended
                 k = 0
                 for l in self.admitted:
                     if l in ended:
                         k += 1
                     else:
                         break
-                lo[ev[1]] = k
+                lo[ev[1][1]] = k
             elif ev[0] == "r_ret":
                 k = 0
                 for l in self.admitted:
@@ -466,7 +471,7 @@ class Exec:
 
 
 # ------------------------------------------------------------------ driving
-def _run_one(R, threads, chooser, mode, line, release_points=True):
+def _run_one(R, threads, chooser, mode, line, release_points=False):
     ex = Exec(threads, chooser, line=line, release_points=release_points)
     try:
         ex.run()
@@ -601,7 +606,7 @@ def run(R):
 def replay(data):
     threads = [tuple(t) for t in data["threads"]]
     ex = Exec(threads, PrefixChooser(data["schedule"]), line=bool(data.get("line")),
-              release_points=bool(data.get("release_points", True)))
+              release_points=bool(data.get("release_points", False)))
     ex.run()
     want = data.get("clause")
     hits = [f for f in ex.found if want is None or f[0] == want]
